@@ -177,5 +177,10 @@ co = np.arange(6.0).reshape(2, 3)
 check("A32 ravel(order='A'/'K') follows the memory layout while reshape(shape, order='A') of the 1-D result writes row-major: the pair is the identity for C-ordered grids only; order='C' (the default) on both sides is the identity for every layout",
       not np.array_equal(fo.ravel(order="A").reshape(fo.shape, order="A"), fo) and np.array_equal(co.ravel(order="A").reshape(co.shape, order="A"), co)
       and np.array_equal(fo.ravel().reshape(fo.shape), fo) and np.array_equal(fo.T.ravel().reshape(fo.T.shape), fo.T))
+a33 = ma.array([1.0, 2.0, 3.0], mask=[False, True, False])
+a33c = ma.array(ma.getdata(a33), mask=ma.getmask(a33), dtype=float, copy=True)
+a33s = ma.array(ma.getdata(a33), mask=ma.getmask(a33), dtype=float)
+check("A33 numpy.ma.array(data, mask=m, copy=True) shares neither the data nor the mask argument; without copy= both are shared",
+      not np.shares_memory(a33c.mask, a33.mask) and not np.shares_memory(a33c.data, a33.data) and np.shares_memory(a33s.mask, a33.mask) and np.shares_memory(a33s.data, a33.data))
 print("%d axiom check(s) failed" % len(FAIL))
 sys.exit(1 if FAIL else 0)
